@@ -37,6 +37,7 @@ def machines : List (String × Machine) := [
   ("waitgroup", MayVerif.WaitGroup.machine),
   ("cancel", MayVerif.Cancel.machine),
   ("cancel_mutex", MayVerif.Mutex.machine),
+  ("cancel_cvlock", MayVerif.Cancel.oracleOnly),
   ("time_dur", MayVerif.Time.machine),
   ("timeout_list", MayVerif.Time.TL.machine)
 ]
